@@ -310,7 +310,7 @@ def check_ws(pairs):
     p = getattr(r, "_parent", None)
     skip = False
     while p is not None:
-      if p.kind in ("Rp", "Rt", "Rtc"):
+      if p.kind == "Rp":
         skip = True
         break
       p = getattr(p, "_parent", None)
